@@ -186,3 +186,54 @@ CHECKS["C06"] = {
         {"variant": "tsan", "engine": "stress", "procs": 2, "rounds_quick": 1500, "rounds_thorough": 30000},
     ],
 }
+
+CV_ASSUME = ["liveness ('every waiter is released') is restated as termination of every small round: logical deadlock detection in the serial engine, "
+             "blocked-state watchdog in the stress engine", "spurious wake-ups are injected only at entry of a wait, never to rescue a parked waiter"]
+
+CHECKS["C09"] = {
+    "src": "C09.cpp",
+    "level": "exploration",
+    "rule": "rounds with N=2..6 threads over G=2..6 consecutive generations of one Barrier, each thread with a predetermined drop generation "
+            "(wait_and_drop) or none, fast re-entry mixed with delays, injected spurious wake-ups. Each thread bumps arrivals[n] before its n-th "
+            "call and on return checks arrivals[n] == number of participants of generation n. Non-trivial: some thread actually blocked in the "
+            "condition variable; distinct = (program, schedule signature).",
+    "assumptions": CV_ASSUME + ["barriers whose threshold reaches zero are not exercised"],
+    "runs": [
+        {"variant": "plain", "engine": "serial", "procs": 6, "rounds_quick": 6000, "rounds_thorough": 120000},
+        {"variant": "plain", "engine": "stress", "procs": 4, "rounds_quick": 2500, "rounds_thorough": 50000},
+        {"variant": "tsan", "engine": "stress", "procs": 2, "rounds_quick": 1000, "rounds_thorough": 20000},
+    ],
+}
+
+CHECKS["C10"] = {
+    "src": "C10.cpp",
+    "level": "exploration",
+    "rule": "rounds on a fresh Latch(count 0..4): 2-6 threads x 1-3 actions (arrive, wait, arrive_and_wait, delays), at least `count` arrivals in "
+            "total (sometimes more), optionally a late waiter that starts after everybody finished (unlocked fast path), injected spurious "
+            "wake-ups. Oracles: at every wait return at least `count` arrive calls had been invoked; arrive never enters a condition wait; the "
+            "late waiter does not block; all threads terminate. Non-trivial: some wait actually blocked in the condition variable; distinct = "
+            "(program, schedule signature, number of condition waits).",
+    "assumptions": CV_ASSUME,
+    "runs": [
+        {"variant": "plain", "engine": "serial", "procs": 6, "rounds_quick": 8000, "rounds_thorough": 150000},
+        {"variant": "plain", "engine": "stress", "procs": 4, "rounds_quick": 3000, "rounds_thorough": 60000},
+        {"variant": "tsan", "engine": "stress", "procs": 2, "rounds_quick": 1500, "rounds_thorough": 20000},
+    ],
+}
+
+CHECKS["C11"] = {
+    "src": "C11.cpp",
+    "level": "exploration",
+    "rule": "activation cycles on one TriggerVariable (1-3 cycles per variable, separated by a quiescent reset): 0-2 activation waiters "
+            "(waitActivation / wait_forActivation), an activator, 1-3 trigger waiters (wait / wait_for with 0, 1 and 50 ms; scheduler-chosen "
+            "time-outs in the serial engine), one finisher (trigger, reset, or trigger then reset) with random delays. Event stamps from the "
+            "logical clock decide: a wait that returned true needs a trigger/reset invoked before its return, a timed false needs the event not "
+            "to have completed before the call, trigger on an inactive variable returns false and changes nothing, inactive after reset; every "
+            "thread terminates (no lost wake-up). Non-trivial: some waiter blocked in a condition variable; distinct = (program, schedule, waits).",
+    "assumptions": CV_ASSUME + ["the variable is not re-activated while waiters of the previous cycle are still blocked (as the property states)"],
+    "runs": [
+        {"variant": "plain", "engine": "serial", "procs": 6, "rounds_quick": 5000, "rounds_thorough": 100000},
+        {"variant": "plain", "engine": "stress", "procs": 4, "rounds_quick": 1500, "rounds_thorough": 30000},
+        {"variant": "tsan", "engine": "stress", "procs": 2, "rounds_quick": 800, "rounds_thorough": 15000},
+    ],
+}
